@@ -44,6 +44,15 @@ def build(cfg):
             dec.align_to(sc["align_to"])
         dec.add(bus, name=sc.get("name"), addr=sc.get("addr"), sparse=(sc["kind"] == "sparse"))
         subs.append(bus)
+        if cfg.get("use_between"):
+            # the decoder is queried / elaborated while more windows are still to come: later windows
+            # must be decoded all the same (no stale derived data)
+            list(dec.bus.memory_map.window_patterns())
+            list(dec.bus.memory_map.all_resources())
+            if k == 0:
+                from amaranth.hdl import Fragment
+                from amaranth.hdl._ir import build_netlist
+                build_netlist(Fragment.get(dec, None), ports=[])
     b = dec.bus
     inputs = [(n, getattr(b, n)) for n in ("adr", "dat_w", "sel", "cyc", "stb", "we", "lock", "cti", "bte") if hasattr(b, n)]
     probes = [(n, getattr(b, n)) for n in ("ack", "err", "rty", "stall", "dat_r") if hasattr(b, n)]
@@ -215,7 +224,9 @@ def configs(tier):
                     if sg <= gran:
                         add(dict(aw=aw, dw=dw, gran=gran, feat=dfeat,
                                  subs=[dense(w1, pol, dfeat), dict(kind="sparse", aw=max(1, min(2, aw + gb - 1)), sgran=sg, feat=sub_feats("outs", dfeat))]))
-    return out
+    # the same configurations with the decoder queried and elaborated between the add() calls
+    extra = [dict(c, use_between=True) for c in out if len(c["subs"]) >= 2][::(6 if quick else 2)]
+    return out + extra
 
 
 def run_config(cfg, tier, seed):
